@@ -76,6 +76,11 @@ EmptyNew == [type |-> NoneS, comdat |-> NoneS, glob |-> NoneS, md |-> NoneS, att
 
 ----------------------------------------------------------------------------
 \* Sources: patterns, single-point faults, permutations
+\* name under which entity e of s is indexed: unnamed globals get "@k", k = number of unnamed
+\* global entities before it (textual numbering, giveUnnamedIdentID)
+UnnamedBefore(s, e) == Cardinality({x \in 1..(e - 1) : s[x].k \in GlobKinds /\ s[x].n = ""})
+KeyOf(s, e) == IF s[e].k \in GlobKinds /\ s[e].n = "" THEN IdNames[UnnamedBefore(s, e) + 1] ELSE s[e].n
+
 SetRefTo(refs, r, to) == [refs EXCEPT ![r] = [@ EXCEPT !.to = to]]
 SetRefAux(refs, r, aux) == [refs EXCEPT ![r] = [@ EXCEPT !.aux = aux]]
 
@@ -99,7 +104,10 @@ DupFaults(s) ==
       locs == { [s EXCEPT ![e] = [@ EXCEPT !.locals = Append(@, [@[l] EXCEPT !.refs = <<>>])]] :
                   <<e, l>> \in {<<e, l>> \in (1..Len(s)) \X (1..16) : l <= Len(s[e].locals) /\ s[e].locals[l].n # ""
                                                                        /\ s[e].locals[l].lk \in {"inst", "block"}} }
-  IN ents \cup locs
+      \* an unnamed global entity defined a second time under the NUMBER it was given (`@0 = ...` twice):
+      \* the copy carries the number as its name, so it is rendered with that explicit ID
+      unn == { Append(s, [s[e] EXCEPT !.n = KeyOf(s, e)]) : e \in {e \in 1..Len(s) : s[e].k \in GlobKinds /\ s[e].n = ""} }
+  IN ents \cup locs \cup unn
 
 \* a definition that something refers to is deleted (the only way to leave an IMPLICIT reference --
 \* the bare `comdat` of a global -- without its target); unnamed globals after it are renumbered by
@@ -172,10 +180,6 @@ AllSources ==
 ----------------------------------------------------------------------------
 \* Closed-form semantics of a source (no notion of processing order)
 
-\* name under which entity e of s is indexed: unnamed globals get "@k", k = number of unnamed
-\* global entities before it (textual numbering, giveUnnamedIdentID)
-UnnamedBefore(s, e) == Cardinality({x \in 1..(e - 1) : s[x].k \in GlobKinds /\ s[x].n = ""})
-KeyOf(s, e) == IF s[e].k \in GlobKinds /\ s[e].n = "" THEN IdNames[UnnamedBefore(s, e) + 1] ELSE s[e].n
 
 DefsOf(s, idx) == {e \in 1..Len(s) : IndexOf(s[e].k) = idx}
 Defined(s, idx, n) == \E e \in DefsOf(s, idx) : KeyOf(s, e) = n
